@@ -47,7 +47,16 @@ const (
 	sigIntMissing          = "parsigdb/store-internal/subscriber-not-called"
 	sigIntWrongSet         = "parsigdb/store-internal/subscriber-wrong-set"
 	sigIntOnExternal       = "parsigdb/store-external/internal-subscriber-called"
+
+	// input-class suffix: the key belongs to a never-expiring duty and a share holding an accepted
+	// partial of it has stored more distinct never-expiring duties than the per-share cap.
+	suffixBeyondCap = "/exempt-duty-share-beyond-cap"
 )
+
+// exemptCap mirrors parsigdb's maxExemptEntriesPerShare: a share's partial for a never-expiring
+// duty may be evicted once the same share has stored exemptCap further distinct never-expiring
+// duties for the same validator and duty type.
+const exemptCap = 10
 
 type keyT struct {
 	Duty core.Duty
@@ -110,10 +119,13 @@ func TestCheck(t *testing.T) {
 	r.Rule("case = PRNG scenario against the real parsigdb.MemDB (+Trim): n in 3..7, t=ceil(2n/3), 1-4 validators, 1-3 duties (expiring, exempt, sync-subcommittee keyed), " +
 		"per key a list of partials (majority/minority roots, equivocating rivals, duplicates) packed into single/multi-validator StoreInternal/StoreExternal batches; kinds: perm (all orders of <=6 batches, fresh DB each), " +
 		"seq, conc (2-8 goroutines per phase), race (goroutines racing for the t-th insert), batchreject (equivocation before/inside/after the batch completing another validator), with duty expiry between/during phases; " +
+		"exemptcap (11-30 never-expiring exit/registration duties for the same validator, shares pass the per-share cap of 10 at different times, late/replayed partials, interleaved with expiring duties; " +
+		"a key is judged only while every accepted partial of it is among the newest 10 never-expiring duties of its share, i.e. cannot have been evicted); " +
 		"failed batches are re-submitted entry by entry so the accepted set is exact; non-trivial = at least one trigger and at least one of {equivocation rejected, duplicate ignored, minority root accepted, batch returned error}; " +
 		"distinct = hash of the generated scenario (keys, batches, phases)")
 	r.Assume("harness Deadliner is consistent: once a duty is expired every later Add answers DeadlineExpired; a duty is only expired while no store for it is in flight")
-	r.Assume("at most 3 distinct exempt duties per case, so the per-share exempt cap (10) never evicts")
+	r.Assume("outside the exemptcap kind at most 3 distinct exempt duties per case, so the per-share exempt cap never evicts")
+	r.Assume("exemptcap kind: the store may evict a share's partial of a never-expiring duty only after that share stored 10 further distinct never-expiring duties for the same validator and type (constant maxExemptEntriesPerShare=10); keys that may have lost a partial that way are no longer judged for exactly-once/no-loss (sticky), only for the content of their triggers")
 	r.Assume("DutySignature (no message roots, deprecated) is not generated")
 	r.Assume("threshold/internal subscribers return nil; values' Clone/MessageRoot/MarshalJSON never fail")
 	r.RacePkgs(false, "core/parsigdb")
@@ -132,6 +144,10 @@ func TestCheck(t *testing.T) {
 	min("real_type_triggers", 1000)
 	min("keys_reached_threshold", 3000)
 	min("keys_below_threshold_at_end", 1500)
+	min("exemptcap_cases", 100)
+	min("exempt_fresh_stores_by_share_beyond_cap", 2000)
+	min("exempt_triggers_on_judged_key_with_share_beyond_cap", 300)
+	min("exempt_keys_no_longer_judged", 100)
 
 	if err := log.InitLogger(log.Config{Level: "error", Format: "console", Color: "disable"}); err != nil {
 		t.Fatalf("init logger: %v", err)
@@ -148,14 +164,16 @@ func runCase(c *kit.Case) {
 	switch k := rng.Intn(100); {
 	case k < 7:
 		kind = "perm"
-	case k < 40:
+	case k < 38:
 		kind = "seq"
-	case k < 65:
+	case k < 62:
 		kind = "conc"
-	case k < 80:
+	case k < 76:
 		kind = "race"
-	default:
+	case k < 92:
 		kind = "batchreject"
+	default:
+		kind = "exemptcap"
 	}
 	g := newGen(c, kind)
 	var desc string
@@ -169,6 +187,11 @@ func runCase(c *kit.Case) {
 	case "batchreject":
 		phases := g.genBatchReject()
 		desc = g.describe(phases)
+		runWorld(c, g.sc, phases, st)
+	case "exemptcap":
+		phases := g.genExemptCap()
+		desc = g.describe(phases)
+		st["exemptcap_cases"]++
 		runWorld(c, g.sc, phases, st)
 	default:
 		phases := g.genRandom(kind == "conc")
@@ -189,7 +212,7 @@ func runCase(c *kit.Case) {
 		}
 		r.Seen("duty_types", name)
 	}
-	if st["triggers"] > 0 && (st["equivocations_rejected"] > 0 || st["duplicates_ignored"] > 0 || st["minority_accepted"] > 0 || st["batch_errors"] > 0) {
+	if st["triggers"] > 0 && (st["equivocations_rejected"] > 0 || st["duplicates_ignored"] > 0 || st["minority_accepted"] > 0 || st["batch_errors"] > 0 || st["exempt_fresh_stores_by_share_beyond_cap"] > 0) {
 		c.NonTrivial(kit.Hash(desc))
 	}
 	if c.Idx < 4 {
@@ -792,6 +815,131 @@ func (g *gen) genBatchReject() []*phaseT {
 	return phases
 }
 
+// genExemptCap: long histories of never-expiring duties (exits / builder registrations at many
+// slots) for the same validator(s): some shares take part in (almost) every duty and pass the
+// per-share cap early, others later or never; partials arrive roughly duty by duty with small and
+// occasionally large delays, duplicates / replays to old duties, a few equivocations; expiring
+// duties are interleaved. Everything runs sequentially so that the order in which a share's
+// entries were stored (which decides what the cap may evict) is known.
+func (g *gen) genExemptCap() []*phaseT {
+	rng := g.rng
+	sc := g.sc
+	typ := core.DutyExit
+	real := rng.Intn(3) == 0
+	if rng.Intn(3) == 0 {
+		typ, real = core.DutyBuilderRegistration, false
+	}
+	nVals := 1 + rng.Intn(2)
+	nDuties := exemptCap + 1 + rng.Intn(20) // 11..30
+	pkPerm := rng.Perm(len(pkPool))
+	baseSlot := uint64(32 * (1 + rng.Intn(50)))
+	keyOf := func(j, v int) int { return j*nVals + v }
+	for j := 0; j < nDuties; j++ {
+		d := core.Duty{Slot: baseSlot + uint64(32*j), Type: typ}
+		for v := 0; v < nVals; v++ {
+			g.addKey(d, pkPool[pkPerm[v]], 0, real)
+		}
+	}
+	// participation of each share: some take part in everything, some join late, some are sparse
+	type behaviour struct {
+		from int // first duty the share takes part in
+		pct  int // participation probability
+	}
+	beh := make([]behaviour, sc.n+1)
+	for s := 1; s <= sc.n; s++ {
+		switch k := rng.Intn(10); {
+		case k < 5:
+			beh[s] = behaviour{0, 100}
+		case k < 7:
+			beh[s] = behaviour{rng.Intn(nDuties), 100}
+		default:
+			beh[s] = behaviour{0, 30 + rng.Intn(70)}
+		}
+	}
+	beh[1+rng.Intn(sc.n)] = behaviour{0, 100} // at least one share passes the cap
+
+	type event struct {
+		at int
+		v  *val
+	}
+	var evs []event
+	for j := 0; j < nDuties; j++ {
+		for v := 0; v < nVals; v++ {
+			k := keyOf(j, v)
+			var part []int
+			for s := 1; s <= sc.n; s++ {
+				if j >= beh[s].from && rng.Intn(100) < beh[s].pct {
+					part = append(part, s)
+				}
+			}
+			rng.Shuffle(len(part), func(a, b int) { part[a], part[b] = part[b], part[a] })
+			for pos, s := range part {
+				variant := 0
+				if rng.Intn(100) < 12 {
+					variant = 1 + rng.Intn(2)
+				}
+				pv := g.newVal(k, s, variant)
+				at := j*100 + pos*8 + rng.Intn(8)
+				switch r := rng.Intn(100); {
+				case r < 12: // late by up to ~4 duties
+					at += rng.Intn(400)
+				case r < 15: // very late: the duty may meanwhile have lost partials to the cap
+					at += 800 + rng.Intn(1500)
+				}
+				evs = append(evs, event{at, pv})
+				if rng.Intn(100) < 8 { // duplicate / replay, possibly much later
+					evs = append(evs, event{at + 1 + rng.Intn(2500), pv})
+				}
+				if rng.Intn(100) < 4 { // equivocation
+					evs = append(evs, event{at + 1 + rng.Intn(300), g.newVal(k, s, rng.Intn(3))})
+				}
+			}
+		}
+	}
+	sort.SliceStable(evs, func(a, b int) bool { return evs[a].at < evs[b].at })
+	var ops []*opT
+	for i := 0; i < len(evs); i++ {
+		o := &opT{duty: sc.keys[evs[i].v.key].Duty, internal: rng.Intn(5) == 0, vals: []*val{evs[i].v}}
+		// merge with the next event into one two-validator batch when it is the same duty
+		if i+1 < len(evs) && rng.Intn(3) == 0 {
+			nv := evs[i+1].v
+			if sc.keys[nv.key].Duty == o.duty && sc.keys[nv.key].PK != sc.keys[evs[i].v.key].PK {
+				o.vals = append(o.vals, nv)
+				i++
+			}
+		}
+		ops = append(ops, o)
+	}
+	// interleave ordinary expiring duties
+	nExempt := len(sc.keys)
+	used := map[core.Duty]bool{}
+	lists := map[int][]*val{}
+	for i, ne := 0, rng.Intn(3); i < ne; i++ {
+		d, rl := g.pickDuty(used, false)
+		for v := 0; v < nVals; v++ {
+			k := g.addKey(d, pkPool[pkPerm[v]], 0, rl && !core.IsSyncSubcommitteeDuty(d.Type))
+			if core.IsSyncSubcommitteeDuty(d.Type) {
+				sc.real[k] = true
+			}
+			lists[k] = g.keyList(k, false)
+		}
+	}
+	if len(sc.keys) > nExempt {
+		for _, o := range g.pack(lists) {
+			p := rng.Intn(len(ops) + 1)
+			ops = append(ops, nil)
+			copy(ops[p+1:], ops[p:])
+			ops[p] = o
+		}
+	}
+	phases := make([]*phaseT, 0, len(ops))
+	for _, o := range ops {
+		phases = append(phases, &phaseT{ops: []*opT{o}, g: 1})
+	}
+
+	return phases
+}
+
 // runPerm generates a small scenario and runs every order of its batches on a fresh DB each.
 func (g *gen) runPerm(st stats) string {
 	rng := g.rng
@@ -941,6 +1089,18 @@ type world struct {
 	stuck     bool
 	conc      bool        // current phase runs more than one goroutine
 	callTrig  map[int]int // call -> triggers fired during it
+
+	// never-expiring duties: per (share, validator, duty type) the keys by recency of the share's
+	// (possibly) fresh stores, newest first; a key behind position exemptCap may have lost that
+	// share's partial to the cap and is from then on not judged for exactly-once / no-loss.
+	exemptL map[exemptEK][]int
+	tainted map[int]bool
+}
+
+type exemptEK struct {
+	share int
+	pk    core.PubKey
+	typ   core.DutyType
 }
 
 func runWorld(c *kit.Case, sc *scenario, phases []*phaseT, st stats) {
@@ -952,7 +1112,7 @@ func runWorld(c *kit.Case, sc *scenario, phases []*phaseT, st stats) {
 		submitted: map[slotT][]*val{}, accepted: map[slotT]*val{},
 		trigCount: map[[2]int]int{}, intCount: map[[2]int]int{}, expired: map[core.Duty]bool{},
 		batchErr: map[int]bool{}, reported: map[string]bool{}, lostDone: map[[2]int]bool{},
-		callTrig: map[int]int{},
+		callTrig: map[int]int{}, exemptL: map[exemptEK][]int{}, tainted: map[int]bool{},
 	}
 	for i, k := range sc.keys {
 		w.keyIdx[k] = i
@@ -1152,6 +1312,12 @@ func (w *world) afterCall(rec *callRec, err error) {
 				if v.variant != 0 {
 					w.st["minority_accepted"]++
 				}
+				w.exemptTouch(v)
+			case w.tainted[v.key]:
+				// the share's earlier partial may have been evicted by the cap: this may be a fresh
+				// store (of the same or of another value); not judged, but it ages the share's other entries.
+				w.accepted[s] = v
+				w.exemptTouch(v)
 			case acc == v:
 				if rec.accAtCall[i] == v {
 					w.st["duplicates_ignored"]++
@@ -1201,6 +1367,71 @@ func (w *world) afterCall(rec *callRec, err error) {
 	default:
 		w.fail(sigErrNoConflict, fmt.Sprintf("call %d returned %v although no entry conflicts with any submitted value", rec.ID, err))
 	}
+}
+
+// exemptTouch records a (possibly) fresh store of v's share at v's never-expiring key: the key
+// becomes the share's newest entry; keys now behind position exemptCap may have lost this share's
+// partial. w.mu must be held.
+func (w *world) exemptTouch(v *val) {
+	key := w.sc.keys[v.key]
+	if !exemptType(key.Duty.Type) {
+		return
+	}
+	ek := exemptEK{share: v.share, pk: key.PK, typ: key.Duty.Type}
+	l := w.exemptL[ek]
+	out := make([]int, 0, len(l)+1)
+	out = append(out, v.key)
+	for _, k := range l {
+		if k != v.key {
+			out = append(out, k)
+		}
+	}
+	w.exemptL[ek] = out
+	if len(out) > exemptCap {
+		w.st["exempt_fresh_stores_by_share_beyond_cap"]++
+	}
+	for _, k := range out[min(len(out), exemptCap):] {
+		if !w.tainted[k] {
+			w.tainted[k] = true
+			w.st["exempt_keys_no_longer_judged"]++
+			w.events = append(w.events, fmt.Sprintf("call %d: k%d no longer judged (share %d stored %d newer never-expiring duties)", len(w.calls)-1, k, v.share, exemptCap))
+		}
+	}
+}
+
+// beyondCap reports whether some share holding an accepted partial of the (never-expiring) key
+// has a history longer than the cap. w.mu must be held.
+func (w *world) beyondCap(k int) bool {
+	key := w.sc.keys[k]
+	if !exemptType(key.Duty.Type) {
+		return false
+	}
+	for sh := 1; sh <= w.sc.n; sh++ {
+		if w.accepted[slotT{k, sh}] != nil && len(w.exemptL[exemptEK{share: sh, pk: key.PK, typ: key.Duty.Type}]) > exemptCap {
+			return true
+		}
+	}
+
+	return false
+}
+
+// beyondCapDuring is beyondCap including the shares whose partials for k are being stored by the
+// call in flight. w.mu must be held.
+func (w *world) beyondCapDuring(k, call int) bool {
+	if w.beyondCap(k) {
+		return true
+	}
+	key := w.sc.keys[k]
+	if !exemptType(key.Duty.Type) || call < 0 || call >= len(w.calls) {
+		return false
+	}
+	for _, v := range w.calls[call].op.vals {
+		if v.key == k && len(w.exemptL[exemptEK{share: v.share, pk: key.PK, typ: key.Duty.Type}]) >= exemptCap {
+			return true
+		}
+	}
+
+	return false
 }
 
 func (w *world) threshSub(sub int) func(context.Context, core.Duty, map[core.PubKey][]core.ParSignedData) error {
@@ -1294,7 +1525,11 @@ func (w *world) threshSub(sub int) func(context.Context, core.Duty, map[core.Pub
 				}
 			}
 			w.trigCount[[2]int{k, sub}]++
-			if c := w.trigCount[[2]int{k, sub}]; c > 1 {
+			capClass := w.beyondCapDuring(k, call)
+			if capClass && !w.tainted[k] && sub == 0 {
+				w.st["exempt_triggers_on_judged_key_with_share_beyond_cap"]++
+			}
+			if c := w.trigCount[[2]int{k, sub}]; c > 1 && !w.tainted[k] {
 				// input class: was one of the triggers fired by a call that brought a partial with another root?
 				sig := sigDupTrigger
 				for _, o := range w.trigs {
@@ -1302,7 +1537,12 @@ func (w *world) threshSub(sub int) func(context.Context, core.Duty, map[core.Pub
 						sig = sigDupTriggerOtherRoot
 					}
 				}
+				if capClass {
+					sig += suffixBeyondCap
+				}
 				w.fail(sig, fmt.Sprintf("threshold subscriber %d triggered %d times for key k%d (%v)", sub, c, k, w.sc.keys[k]))
+			} else if c > 1 {
+				w.st["exempt_repeated_triggers_on_keys_no_longer_judged"]++
 			}
 			if foreign >= 0 {
 				w.fail(sigForeign, fmt.Sprintf("trigger for key k%d carries a partial of share %d that is not content-equal to any partial submitted for it", k, foreign))
@@ -1384,6 +1624,9 @@ func (w *world) checkQuiescent() {
 		if w.expired[key.Duty] {
 			continue // frozen; the online oracle forbids any further trigger
 		}
+		if w.tainted[k] {
+			continue // a share's partial may have been evicted by the never-expiring cap: not judged
+		}
 		counts := map[[32]byte]int{}
 		for sh := 1; sh <= w.sc.n; sh++ {
 			s := slotT{k, sh}
@@ -1407,7 +1650,9 @@ func (w *world) checkQuiescent() {
 			switch {
 			case reached && cnt == 0 && !w.lostDone[id]:
 				w.lostDone[id] = true
-				if w.batchErr[k] {
+				if w.beyondCap(k) {
+					w.fail(sigLost+suffixBeyondCap, fmt.Sprintf("key k%d (%v) has %d accepted partials with one root (threshold %d), each among the newest %d never-expiring duties of its share, but subscriber %d was never triggered", k, key, maxCount(counts), w.sc.t, exemptCap, sub))
+				} else if w.batchErr[k] {
 					w.fail(sigLostAfterBatchErr, fmt.Sprintf("key k%d (%v) has %d accepted partials with one root (threshold %d) but subscriber %d was never triggered; "+
 						"its completing partial travelled in a multi-validator batch that returned an error for another entry, the partial stayed stored (re-submission is a duplicate)", k, key, maxCount(counts), w.sc.t, sub))
 				} else {
@@ -1420,7 +1665,7 @@ func (w *world) checkQuiescent() {
 		}
 	}
 	for _, tr := range w.trigs {
-		if tr.verified || w.expired[w.sc.keys[tr.Key].Duty] {
+		if tr.verified || w.expired[w.sc.keys[tr.Key].Duty] || w.tainted[tr.Key] {
 			continue
 		}
 		tr.verified = true
